@@ -27,6 +27,54 @@ EXPLANATION = (
 )
 
 
+def check_server_scope(repo: Repo, rep: Report, rule: str = "binding") -> None:
+    """AssociationServer.bind() / unbind() / __init__ push handlers to the server's *own* live associations,
+    which they find through AssociationServer.active_associations. That property is evaluated (sa/minipy.py) on
+    a thread list holding acceptor associations of this server, of a second server of the same AE, requestor
+    associations of the AE and unrelated threads: exactly the first group must come back - otherwise starting
+    or re-binding one server rewrites the EVT_USER_ID / EVT_REQUESTED handlers of another server's
+    connections that are still waiting for their request, and that server's acceptance policy is not applied."""
+    from ..minipy import Interp, Obj, Raised, Unsupported
+
+    tr = repo.mod("transport")
+    ci = repo.cls("transport", "AssociationServer")
+    fn = ci.getters.get("active_associations") if ci is not None else None
+    if fn is None:
+        rep.defer("transport.AssociationServer.active_associations vanished")
+        return
+    ae = Obj("ApplicationEntity", {})
+    me = Obj("AssociationServer", {"ae": ae})
+    other = Obj("AssociationServer", {"ae": ae})
+    threads, want = [Obj("Thread", {"name": "MainThread"}), Obj("Thread", {"name": "worker-1"})], []
+    k = 0
+    for srv in (me, other, None):
+        for acc in (True, False):
+            for est in (False, True):
+                k += 1
+                a_ = Obj("Association", {"name": f"{'Acceptor' if acc else 'Requestor'}Thread@2026{k:04d}", "_server": srv if acc else None, "ae": ae, "is_acceptor": acc, "is_requestor": not acc, "mode": "acceptor" if acc else "requestor", "is_established": est, "is_aborted": False, "is_released": False, "@is_alive": lambda s_: True})
+                threads.append(a_)
+                if acc and srv is me:
+                    want.append(a_)
+    it_ = Interp({"threading": Obj("module", {"@enumerate": lambda s_: list(threads)}), "Association": "Association"})
+    try:
+        got = it_.call_function(fn, {fn.args.args[0].arg: me}) or []
+    except Raised as r_:
+        rep.fail(rule, "transport.AssociationServer.active_associations", f"raises {r_.kind}", "the server's live associations could not be listed", mod=tr, node=fn)
+        return
+    except Unsupported as exc_:
+        rep.defer(f"transport.AssociationServer.active_associations could not be evaluated ({exc_})")
+        return
+    miss = [a_ for a_ in want if not any(g_ is a_ for g_ in got)]
+    extra = [g_ for g_ in got if not any(g_ is a_ for a_ in want)]
+    what = ""
+    if extra:
+        e0 = extra[0]
+        what = "; it also returns " + ("an acceptor association of another server of the same AE" if isinstance(e0, Obj) and e0.attrs.get("_server") is other else "a requestor association" if isinstance(e0, Obj) and e0.attrs.get("is_requestor") else "a thread that is not one of its associations")
+    if miss:
+        what += "; it leaves out one of its own acceptor associations"
+    rep.check(not miss and not extra, rule, "transport.AssociationServer.active_associations", f"{len(want)} acceptor associations of this server among {len(threads)} threads -> {len(got)} returned", f"the handlers a server binds (or its defaults at start-up) are pushed to exactly its own live acceptor associations{what}: the user-identity / request handlers of another server's pending connections are replaced, so a request that server's policy refuses is accepted (or the other way round)", mod=tr, node=fn)
+
+
 def run(repo: Repo, rep: Report, tier: str) -> None:
     rep.rule("sticky-reject", "once a rejection triple is decided every path sends A-ASSOCIATE-RJ and returns; send_accept / is_established = True are unreachable from it")
     rep.rule("policy-tests", "calling / called AE title and identity tests use the documented operands and triples")
@@ -250,6 +298,7 @@ def run(repo: Repo, rep: Report, tier: str) -> None:
     dfn = evm.funcs.get(dflt) if dflt else None
     ok = dfn is not None and any(isinstance(x, ast.Raise) and "NotImplementedError" in norm(x) for x in body_nodoc(dfn)) and not any(isinstance(x, ast.Return) for x in ast.walk(dfn))
     rep.check(ok, "binding", "events.get_default_handler", f"EVT_USER_ID -> {dflt}", "the default identity handler must unconditionally raise NotImplementedError (the 'no handler bound' marker _check_user_identity accepts on)", mod=evm, node=gd)
+    check_server_scope(repo, rep)
     # who writes a handler table
     writers = set()
     for mname, m in sorted(repo.modules.items()):
